@@ -1152,6 +1152,28 @@ def check_topo(prop, what, tier, seed):
     for n in ns:
         orders = 1 if n <= 1 else (3 if n <= 5 else (1 if tier == 'quick' else 2))
         cases.append('what=%s n=%d orders=%d seed=%d' % (what, n, orders, seed))
+    # disjoint unions of 2..4 small components (up to 16 vertices) under a seeded relabelling: many components, K2 components, pendant
+    # trees next to cycles — shapes of the property's quantifier that no graph on <= 6 vertices has
+    catalog = [(1, []), (2, [(0, 1)]), (3, [(0, 1), (1, 2)]), (3, [(0, 1), (1, 2), (0, 2)]), (4, [(0, 1), (1, 2), (2, 3), (0, 3)]),
+               (4, all_pairs(4)), (4, [(0, 1), (1, 2), (0, 2), (2, 3)]), (5, [(0, 1), (1, 2), (0, 2), (2, 3), (3, 4), (2, 4)]),
+               (5, [(i, (i + 1) % 5) for i in range(5)]), (4, [(0, 1), (0, 2), (0, 3)])]
+    r = rng(shash((seed, what, 'unions')))
+    combos = []
+    for k in (2, 3, 4):
+        combos += list(itertools.combinations_with_replacement(range(len(catalog)), k))
+    if tier == 'quick':
+        combos = r.sample(combos, 250)
+    for combo in combos:
+        nv, es = 0, []
+        for ci in combo:
+            cn, ce = catalog[ci]
+            es += [(a + nv, b + nv) for a, b in ce]
+            nv += cn
+        perm = list(range(nv))
+        r.shuffle(perm)
+        es = [tuple(sorted((perm[a], perm[b]))) for a, b in es]
+        r.shuffle(es)
+        cases.append('what=%s n=%d edges=%s orders=2 seed=%d union=1' % (what, nv, edges_str(es), seed))
     if tier == 'thorough':
         # 7 vertices: sparse and dense ends only (solver-side edge-count assumptions)
         cases.append('what=%s n=7 orders=1 maxm=6 seed=%d' % (what, seed))
@@ -1226,8 +1248,8 @@ def check_topo(prop, what, tier, seed):
                 'exhaustive': True}
     bounds = {
         'functions_encoded': ['parmcb::greedy_fvs'] if what == 'fvs' else ['parmcb::ForestIndex', 'parmcb::detail::spanning_forest'],
-        'bounds': 'every labelled simple graph on n <= %d vertices (n=6: 32768 graphs; quick: natural insertion order only for n=6) in natural, reversed(+flipped endpoints) and a seeded insertion '
-                  'order%s' % (6, '; thorough: n=7 with m<=8 or m>=17' if tier == 'thorough' else ''),
+        'bounds': 'every labelled simple graph on n <= 6 vertices (n=6: 32768 graphs; quick: natural insertion order only for n=6) in natural, reversed(+flipped endpoints) and a seeded insertion '
+                  'order; plus %s disjoint unions of 2..4 small components (up to 16 vertices, seeded relabelling)%s' % ('250 seeded' if tier == 'quick' else 'all 935', '; thorough: n=7 with m<=8 or m>=17' if tier == 'thorough' else ''),
         'outside_bounds': 'graphs on more vertices',
         'note': 'degenerate case of the technique: the input is topology only, the solver only enumerates adjacency bits; claimed as exhaustive exploration',
     }
